@@ -29,3 +29,8 @@ claim("C04", "fault_enumeration", "Exhaustive enumeration of transport-event scr
       "reference retry/pending machine (outcome, number of transmissions, reconnects, no transmission while pending, bounded duration). Fault enumeration: the bounded script space is "
       "covered completely; longer scripts and overrides are sampled.",
       "Scripted in-memory transport and virtual clock stand in for the network; limits (120 pendings, max(timeout,20 s) silence) are only checked generously.")
+claim("C13", "exploration", "Hypothesis model/history generation + exhaustive (sid x single payload byte) sweeps + all 512 switch subsets, compared with a reference ISO 14229-1 default-response chain and state machine",
+      "RandomUDSServer models are generated from seeds and randomness parameters, driven through UDSServerTransport.handle_request by histories resolved against the model; every reply "
+      "is compared with a reference chain (0x11/0x7F, 0x13, 0x12/0x7E, 0x13 in priority order), suppression and session/security state are tracked by a reference state machine. "
+      "Exhaustive over sid 0..255 x {empty, every single byte} per swept state and over the 512 switch subsets (thorough); exploration elsewhere.",
+      "The reference chain and the request well-formedness rules are my reading of ISO 14229-1; the generated model (server.services) is taken as ground truth for what is offered.")
